@@ -124,6 +124,13 @@ def Ty.core : Ty → Ty
   | .optional t => t.core
   | t => t
 
+/-- a list merged into a dataclass-typed field whose current value is `None` (an `Optional[...] = None` field) is a
+`ConfigTypeError`; into a field that holds an instance it is a `ValidationError` (both are rejections) -/
+def listIntoNoneStruct (t : Ty) (d : Val) (v : Val) : Bool :=
+  match v, t.core, d with
+  | .list _, .struct _ _, .null => true
+  | _, _, _ => false
+
 mutual
 /-- `OmegaConf.merge(structured(ty), v)` succeeds?  Structural recursion on the value. -/
 def validate (ty : Ty) (v : Val) : Res :=
@@ -154,7 +161,8 @@ def validateKVs (fields : List (Sym × Ty × Val)) (kvs : List (Sym × Val)) : R
   | (k, v) :: rest =>
     match lookup k fields with
     | none => .error .configKeyError
-    | some (t, _) =>
+    | some (t, d) =>
+      if listIntoNoneStruct t d v then .error .configTypeError else
       match validate t v with
       | .ok () => validateKVs fields rest
       | .error e => .error e
